@@ -192,7 +192,8 @@ func runC05(op string) string {
 			if strings.Contains(f[2], ":") {
 				d, _ := unhex(f[2][strings.Index(f[2], ":")+1:])
 				byronPath = len(d) > 0 && d[0]>>4 == 8
-			} else if d, _ := unhex(f[3]); len(d) > 0 && d[0]>>4 == 8 {
+			} else if d, _ := unhex(f[3]); f[2] == "no" && f[4] == "0" && len(d) > 0 && d[0]>>4 == 8 {
+				// base58 is only consulted when bech32 failed and the string has no Shelley prefix
 				byronPath = true
 			}
 			return c05ErrClass(err, byronPath)
